@@ -130,7 +130,35 @@ def shape_f(pid, macro, nb, seed, heavy=False):
     return Program(pid, text, "    " + "\n    ".join(L), desc=desc, group="F/" + macro, role=dict(kind=macro), heavy=heavy, solo=True, unwind=12, weight=5)
 
 
+def shape_lazy(pid, macro, seed):
+    """laziness with side-effecting blocks: block initial values, block operands (step 0 and later), handler definition"""
+    is_async, is_try, is_spawn = KINDS[macro]
+    msg = lambda t: "\"C09[%s]: %s\"" % (pid, t)
+    v = (lambda x: "mk(true, %s)" % x) if is_try else (lambda x: x)
+    ty_ = "Result<u8, u8>" if is_try else "u8"
+    mp = (lambda k: "move |r: Result<u8, u8>| r.map(|v| v ^ %s)" % k) if is_try else (lambda k: "move |v: u8| v ^ %s" % k)
+    text = ("%s! {\n        { ev(1); astep(2, 3, 0, %s) } |> { ev(4); %s },\n        { ev(5); ready(%s) } ~|> { ev(6); %s },\n        %s => { ev(7); move |a: u8, b: u8| %s }\n    }"
+            % (macro, v("p0"), mp("k0"), v("p1"), mp("k1"), "map" if is_try else "then", "{ ev(8); a ^ b }" if is_try else "async move { ev(8); a ^ b }"))
+    L = ["let p0 = u(); let p1 = u(); let k0 = u(); let k1 = u();", "let mut fut = %s;" % text]
+    L.append("vassert!(seq() == 0 && k_spawned() == 0, %s);" % msg("no block initial value, block operand or handler expression is evaluated (and no task spawned) before the first poll"))
+    L.append("let r = poll_once(&mut fut);")
+    L.append("vassert!(r == Poll::Ready(%s), %s);" % ("Ok(p0 ^ k0 ^ p1 ^ k1)" if is_try else "p0 ^ k0 ^ p1 ^ k1", msg("value")))
+    for e in (1, 2, 3, 4, 5, 6, 7, 8):
+        L.append("vassert!(cnt(%d) == 1, %s);" % (e, msg("every block runs exactly once, after the first poll")))
+    L.append("vcover!(true, \"end reached\");")
+    return Program(pid, text, "    " + "\n    ".join(L), desc=dict(macro=macro, shape="lazy blocks"), group="lazy/" + macro, role=dict(kind=macro), solo=True, unwind=12, weight=3)
+
+
 def programs(tier, seed):
+    ps = programs_nf(tier, seed)
+    i = len(ps)
+    for macro in ("join_async", "try_join_async", "join_async_spawn", "try_join_async_spawn") + (("async_spawn", "try_async_spawn") if tier == "thorough" else ()):
+        i += 1
+        ps.append(shape_lazy("p%04d" % i, macro, seed))
+    return ps
+
+
+def programs_nf(tier, seed):
     ps = []
     i = 0
     if tier == "quick":
@@ -160,7 +188,7 @@ def generate(tier, seed):
 
 META = dict(
     level="model_checking",
-    rule="programs listed in gen_c09.py: shape N (symbolic pending count per gate, poll-by-poll assertions) for the async and task-spawning macros, shape F (harness-opened gates with stored wakers, "
+    rule="programs listed in gen_c09.py: lazy-blocks programs (side-effecting block initial values, block operands of step 0 and 1 and handler expression must not run before the first poll), shape N (symbolic pending count per gate, poll-by-poll assertions) for the async and task-spawning macros, shape F (harness-opened gates with stored wakers, "
          "symbolic opening batches incl. empty = spurious poll) for join_async!/try_join_async!; one program per query; non-trivial = passed with witnesses (both readiness orders, maximal poll count, "
          "a spurious poll, last branch ready first); distinct = distinct invocation texts",
     functions_encoded=["expansions of join_async!, try_join_async!, join_async_spawn!, try_join_async_spawn!, async_spawn!, try_async_spawn! (Box::pin(async move ..), futures join!/try_join!, __spawn_tokio)",
